@@ -248,4 +248,5 @@ package stateless
 //@ func (spt *Tracker) Shutdown
 //@   property C18
 //@   opts own
+//@   ensures [success-means-shut-down] err == nil ==> spt.shutdown
 //@   modifies *
